@@ -58,7 +58,10 @@ pub fn remove_condition_parentheses(expression: Expression) -> Expression {
             ..
         } => {
             let (_, comments) = trivia_util::take_trailing_comments(&expression);
-            inner_expression.update_trailing_trivia(FormatTriviaType::Append(comments))
+            // The condition may be wrapped in several pairs of parentheses: remove all of them at once
+            remove_condition_parentheses(
+                inner_expression.update_trailing_trivia(FormatTriviaType::Append(comments)),
+            )
         }
         _ => expression,
     }
